@@ -8,7 +8,7 @@ import bp, sf_common
 
 EXPLANATION = ('C19: CBMC on the IR-derived C of the real Workload_Distribution and Range for all arguments in the bound (size, end points, monotonicity, differences within 1; exact half-open integer range in the stated direction); '
                'EA on Linear_Space / Log_Space (count, end points, equal spacing, monotonicity), Locate_Closest_Location (index in range, nearest element, unsorted input exits), the list templates on symbolic doubles for every length combination in the bound, '
-               'and Arithmetic_Mean / Variance / Standard_Deviation / Median (sorting-network oracle) / Weighted_Average (equal weights reduce to mean and s/sqrt(N)).')
+               'and Arithmetic_Mean / Variance / Standard_Deviation / Median (sorting-network oracle) / Weighted_Average (equal weights reduce to mean and s/sqrt(N); arbitrary positive weights, N <= 3: the average is sum(w x)/sum(w) and the squared standard error is N/((N-1) W^2) sum w_i^2 (x_i - avg)^2, from which the translation and scaling laws follow).')
 BOUNDS = {'quick': {'workers': 8, 'tasks': 64, 'range': 6, 'steps': [2, 3, 4, 5], 'list_len': 3, 'stat_n': [1, 2, 3, 4, 5]}, 'thorough': {'workers': 12, 'tasks': 1024, 'range': 10, 'steps': [2, 3, 4, 5, 6, 8], 'list_len': 4, 'stat_n': [1, 2, 3, 4, 5, 6]}}
 NOT_DECIDED = ['float spacing degeneracy of Linear_Space/Log_Space for huge step counts (rounding)', 'sizes beyond the bound']
 ASSUMPTIONS = ['EA: doubles exact reals, exp/log uninterpreted with exp(log x) = x where named', 'BP: CBMC bit-precise on the generated C, unwinding assertions on']
@@ -159,6 +159,16 @@ def job_stats(n):
             avg = toR(p.st.load(o2['a'], 8, True)); se = toR(p.st.load(o2['a'] + 8, 8, True))
             res.append(prove('weighted-average/equal-weights/n%d[%d]' % (n, pi), p.st.pc + alg_assumptions(p.st) + [W > 0], z3.And(avg == mean, se >= 0, se * se * n - var <= RV(4e-16) * var, var - se * se * n <= RV(4e-16) * var), 60000,   # N/(N-1.0) is folded in double arithmetic: equality up to 2 ulp
                               dict(mv, op=5), key='C19/stats/weighted-average', tactic='nra'))
+    if 2 <= n <= 3:
+        # arbitrary positive weights: the average is sum(w x)/sum(w) and Cochran's expression collapses to N/((N-1) W^2) sum w_i^2 (x_i - avg)^2 - translation invariant, quadratic under scaling
+        WS = [z3.Real('w%d' % i) for i in range(n)]
+        ps, o2 = call(5, WS)
+        for pi, p in enumerate(ps):
+            if p.end is not None: continue
+            avg = toR(p.st.load(o2['a'], 8, True)); se = toR(p.st.load(o2['a'] + 8, 8, True)); wsum = sum(WS)
+            core = sum(w * w * (x - avg) * (x - avg) for w, x in zip(WS, D)) * n; lhs = se * se * wsum * wsum * (n - 1)
+            res.append(prove('weighted-average/unequal-weights/n%d[%d]' % (n, pi), p.st.pc + alg_assumptions(p.st) + [w > 0 for w in WS], z3.And(avg * wsum == sum(w * x for w, x in zip(WS, D)), se >= 0, lhs - core <= RV(4e-16) * core, core - lhs <= RV(4e-16) * core), 60000,
+                              dict(mv, op=5, weights=WS), key='C19/stats/weighted-average', tactic='nra'))
     ps, _ = call(2)
     srt = sortnet(D); med = srt[n // 2] if n % 2 else (srt[n // 2 - 1] + srt[n // 2]) / 2
     nret = 0
@@ -278,5 +288,11 @@ def replay(ctx, o):
         if n >= 2:
             bad = bad or abs(call(3, [1.0] * n)['ret'] - statistics.variance(x)) > 1e-9 * sc * sc
             r = call(5, [w] * n); bad = bad or abs(r['arrays'][2][0] - sum(x) / n) > 1e-9 * sc or abs(r['arrays'][2][1] - math.sqrt(statistics.variance(x) / n)) > 1e-9 * sc
+        if 'weights' in m and n >= 2:
+            ws = [fl(q) for q in m['weights']]; r = call(5, ws); W = sum(ws); avg = sum(a * b for a, b in zip(ws, x)) / W
+            se = math.sqrt(n / (n - 1.0) / W / W * sum(a * a * (b - avg) ** 2 for a, b in zip(ws, x)))
+            r2 = nat.call(so2, 'verif_stats', [('i32', 5), ('u32', n), ('dbl[]', [t + 3.0 for t in x]), ('dbl[]', ws), ('dbl[]', [0.0, 0.0])])
+            bad = abs(r['arrays'][2][0] - avg) > 1e-9 * sc or abs(r['arrays'][2][1] - se) > 1e-9 * max(se, sc * 1e-6)
+            return bad, 'native Weighted_Average of values %s weights %s = %s; sum(w x)/sum(w) = %r, N/((N-1)W^2) sum w^2 (x-avg)^2 gives %r; after shifting the values by 3: %s' % (x, ws, r['arrays'][2], avg, se, r2['arrays'][2])
         return bad, 'native summary statistics of %s: mean %r median %r' % (x, call(1, [1.0] * n)['ret'], call(2, [1.0] * n)['ret'])
     return False, 'no replay rule for ' + key
